@@ -2,8 +2,23 @@
 
 package file
 
+import "time"
+
 // VerifClosed reports whether the data source has closed itself (file removed, or renamed away
 // and not found again). Only built with the verif tag.
 func (s *RefreshableFileDataSource) VerifClosed() bool {
 	return s.closed.Get()
+}
+
+// VerifReleaseSelfClose lets the watcher goroutine finish after the data source closed itself
+// from inside that goroutine: Close sends on an unbuffered channel that only the goroutine
+// itself receives, so it stays blocked (and its fsnotify watcher open) until somebody receives.
+// Returns whether a pending send was received within d. Only built with the verif tag.
+func (s *RefreshableFileDataSource) VerifReleaseSelfClose(d time.Duration) bool {
+	select {
+	case <-s.closeChan:
+		return true
+	case <-time.After(d):
+		return false
+	}
 }
